@@ -12,8 +12,16 @@ import (
 // ThroughFieldLoad, as deriving from everything stored into the struct), this walker follows exactly the field that is
 // read: through local struct variables and composite literals, whole-struct copies, structs returned by repo helpers
 // and struct parameters. Leaves are returned as they are (slices, calls of external functions, allocations …).
-func fsOrigins(c *Ctx, v ssa.Value) []ssa.Value {
+func fsOrigins(c *Ctx, v ssa.Value, stop ...func(ssa.Value) bool) []ssa.Value {
 	p := c.P
+	isStop := func(x ssa.Value) bool {
+		for _, f := range stop {
+			if f(x) {
+				return true
+			}
+		}
+		return false
+	}
 	var out []ssa.Value
 	seen := map[ssa.Value]bool{}
 	type fk struct {
@@ -67,7 +75,7 @@ func fsOrigins(c *Ctx, v ssa.Value) []ssa.Value {
 			return
 		}
 		seen[v] = true
-		if d > 40 {
+		if d > 40 || isStop(v) {
 			out = append(out, v)
 			return
 		}
